@@ -1,5 +1,213 @@
-(* Proofs for property C13 (installed VRPs = fold of the cache's responses). *)
+(* Proofs for property C13: after the first End of Data (hence after each one) the
+   VRPs installed for a cache are the fold of its responses; other caches' VRPs
+   are untouched; everything of a cache is removed when its session ends; the
+   codec consumes every well-framed PDU under any fragmentation. *)
 From Coq Require Import List Arith NArith Bool Lia ZifyBool ZifyNat ZifyN.
-From RB Require Import Base.Val Model.Rpki Model.RtrClient Spec.Rfc6811 Proofs.RpkiTrie Proofs.Rpki.
+From RB Require Import Base.Val Model.Rpki Model.RtrClient Spec.Rfc6811 Spec.RtrSpec
+  Proofs.RpkiTrie Proofs.Rpki.
 Import ListNotations.
 Open Scope N_scope.
+
+(* ---- views *)
+Definition view (m : msg) : pdu_view :=
+  match m with
+  | IpPrefix n flags mx asn => if 0 <? N.land flags 1 then PAnnounce (n, mx, asn) else PWithdraw (n, mx, asn)
+  | EndOfData _ _ _ _ _ => PEndOfData
+  | _ => POther
+  end.
+
+(* the VRPs installed on behalf of cache c, as records *)
+Definition installed (c : N) (t : rtab) (r : rec) : Prop := tmem t (elt_of c r).
+
+Lemma elt_of_inj : forall c r1 r2, elt_of c r1 = elt_of c r2 -> r1 = r2.
+Proof.
+  intros c [[n1 mx1] a1] [[n2 mx2] a2] H. unfold elt_of, mk_roa, key_of in H. cbn [fst snd] in H.
+  injection H as Hf Hk Hm Ha. apply app_inj_tail in Hk. destruct Hk as [Hadr Hmask].
+  destruct n1, n2. cbn in *. subst. reflexivity.
+Qed.
+
+Lemma cache_of_elt : forall c r, cache_of (elt_of c r) = c.
+Proof. intros c [[n mx] a]. reflexivity. Qed.
+
+(* ---- PDU-level runs *)
+Fixpoint run_msgs (fx : fixes) (c : N) (ms : list msg) (st : cstate) (t : rtab) : cstate * rtab :=
+  match ms with
+  | [] => (st, t)
+  | m :: rest => let '(st', t', _) := on_msg fx c st t m in run_msgs fx c rest st' t'
+  end.
+
+Definition v_recs (c : N) (v : list (net * roa)) (r : rec) : Prop :=
+  In (fst (fst r), mk_roa c (snd (fst r)) (snd r)) v.
+
+Lemma reset_spec : forall c v t x, wf_tab t ->
+  (tmem (reset c v t) x
+   <-> In x (map (fun nr => (n_fam (fst nr), key_of (fst nr), snd nr)) v) \/ (cache_of x <> c /\ tmem t x)).
+Proof. intros c v t x W. unfold reset. rewrite fold_insert_spec, drop_spec by exact W. reflexivity. Qed.
+
+Lemma reset_wf : forall c v t, wf_tab t -> wf_tab (reset c v t).
+Proof. intros c v t W. unfold reset. apply fold_insert_wf, drop_wf. exact W. Qed.
+
+Definition v_ok (c : N) (st : cstate) : Prop := Forall (fun nr => r_src (snd nr) = c) (c_v st).
+
+Lemma v_ok_init : forall c, v_ok c c_init.
+Proof. intro c. constructor. Qed.
+
+(* wf, the shape of v and isolation for one message, any fix setting *)
+Lemma on_msg_inv : forall fx c st t m st' t' out,
+  wf_tab t -> v_ok c st -> on_msg fx c st t m = (st', t', out) ->
+  wf_tab t' /\ v_ok c st' /\ forall x, cache_of x <> c -> (tmem t' x <-> tmem t x).
+Proof.
+  intros fx c st t m st' t' out W V H.
+  assert (RS : wf_tab (reset c (c_v st) t) /\ forall x, cache_of x <> c -> (tmem (reset c (c_v st) t) x <-> tmem t x)).
+  { split; [apply reset_wf; exact W|]. intros x Hx. rewrite reset_spec by exact W. split; [|tauto].
+    intros [Hin|[_ Hm]]; [|exact Hm]. exfalso. apply in_map_iff in Hin. destruct Hin as [[n r] [E Hin]].
+    unfold v_ok in V. rewrite Forall_forall in V. specialize (V (n, r) Hin). cbn [fst snd] in *. subst x.
+    apply Hx. unfold cache_of. cbn. exact V. }
+  destruct m as [sid serial|sid serial| |sid|n flags mx asn|sid serial a b d| |code]; cbn [on_msg] in H.
+  - destruct (c_eod st && negb (serial =? c_serial st)); inversion H; subst; (split; [exact W|split; [exact V|tauto]]).
+  - inversion H; subst. split; [exact W|split; [exact V|tauto]].
+  - inversion H; subst. split; [exact W|split; [exact V|tauto]].
+  - inversion H; subst. split; [exact W|split; [exact V|tauto]].
+  - destruct (0 <? N.land flags 1); destruct (c_eod st); inversion H; subst; clear H.
+    + split; [apply insert_wf; exact W|]. split; [exact V|]. intros x Hx. rewrite insert_spec. split; [|tauto].
+      intros [E|E]; [|exact E]. subst x. exfalso. apply Hx. reflexivity.
+    + split; [exact W|]. split; [|tauto]. unfold v_ok, set_core. cbn [c_v]. apply Forall_app. split; [exact V|].
+      constructor; [reflexivity|constructor].
+    + split; [apply remove_wf; exact W|]. split; [exact V|]. intros x Hx. rewrite remove_spec by exact W. split; [tauto|].
+      intro E. split; [|exact E]. intro E2. subst x. apply Hx. reflexivity.
+    + split; [exact W|split; [exact V|tauto]].
+  - destruct (fx_eod fx); [destruct (c_eod st)|]; inversion H; subst; clear H.
+    + split; [exact W|split; [exact V|tauto]].
+    + split; [apply RS|]. split; [constructor|apply RS].
+    + split; [apply RS|]. split; [exact V|apply RS].
+  - inversion H; subst. split; [exact W|split; [exact V|tauto]].
+  - inversion H; subst. split; [exact W|split; [exact V|tauto]].
+Qed.
+
+(* ---- the fold invariant of the fixed code *)
+Definition fold_inv (c : N) (st : cstate) (t : rtab) (F : rec -> Prop) : Prop :=
+  if c_eod st then forall r, installed c t r <-> F r
+  else forall r, v_recs c (c_v st) r <-> F r.
+
+Definition view_ok (eod : bool) (p : pdu_view) : Prop :=
+  match p with PWithdraw _ => eod = true | _ => True end.
+
+Definition fold_step (p : pdu_view) (F : rec -> Prop) : rec -> Prop :=
+  match p with
+  | PAnnounce r => fun x => x = r \/ F x
+  | PWithdraw r => fun x => x <> r /\ F x
+  | _ => F
+  end.
+
+Lemma fold_cache_step : forall p ps F, fold_cache (p :: ps) F = fold_cache ps (fold_step p F).
+Proof. intros [r|r| |] ps F; reflexivity. Qed.
+
+Lemma net_key_inj : forall n1 n2, n_fam n1 = n_fam n2 -> key_of n1 = key_of n2 -> n1 = n2.
+Proof.
+  intros [f1 a1 m1] [f2 a2 m2] Hf Hk. unfold key_of in Hk. cbn in *. apply app_inj_tail in Hk. destruct Hk. subst. reflexivity.
+Qed.
+
+Lemma in_map_elt : forall c v r,
+  In (elt_of c r) (map (fun nr => (n_fam (fst nr), key_of (fst nr), snd nr)) v) <-> v_recs c v r.
+Proof.
+  intros c v [[n mx] asn]. unfold v_recs, elt_of. cbn [fst snd]. rewrite in_map_iff. split.
+  - intros [[n' ro] [E Hin]]. cbn [fst snd] in E. injection E as Hf Hk Hr. subst ro.
+    rewrite (net_key_inj n' n Hf Hk) in Hin. exact Hin.
+  - intro H. exists (n, mk_roa c mx asn). split; [reflexivity|exact H].
+Qed.
+
+Lemma installed_reset : forall c v t r, wf_tab t -> (installed c (reset c v t) r <-> v_recs c v r).
+Proof.
+  intros c v t r W. unfold installed. rewrite reset_spec by exact W. rewrite in_map_elt, cache_of_elt. tauto.
+Qed.
+
+Lemma on_msg_fold : forall c st t m st' t' out F,
+  wf_tab t -> fold_inv c st t F -> view_ok (c_eod st) (view m) ->
+  on_msg fixed c st t m = (st', t', out) ->
+  fold_inv c st' t' (fold_step (view m) F)
+  /\ c_eod st' = (c_eod st || match view m with PEndOfData => true | _ => false end).
+Proof.
+  intros c st t m st' t' out F W I VO H. unfold fold_inv in *.
+  destruct m as [sid serial|sid serial| |sid|n flags mx asn|sid serial a b d| |code]; cbn [on_msg view fixed fx_eod] in *.
+  - destruct (c_eod st && negb (serial =? c_serial st)); inversion H; subst; cbn [fold_step]; rewrite orb_false_r; (split; [exact I|reflexivity]).
+  - inversion H; subst. cbn [fold_step]. rewrite orb_false_r. split; [exact I|reflexivity].
+  - inversion H; subst. cbn [fold_step]. rewrite orb_false_r. split; [exact I|reflexivity].
+  - inversion H; subst. cbn [fold_step set_core c_eod c_v]. rewrite orb_false_r. split; [exact I|reflexivity].
+  - destruct (0 <? N.land flags 1); cbn [fold_step view_ok] in *.
+    + destruct (c_eod st) eqn:E; inversion H; subst; clear H; cbn [set_core c_eod c_v]; rewrite ?E, ?orb_false_r; (split; [|reflexivity]).
+      * intro r. unfold installed. rewrite insert_spec. change (n_fam n, key_of n, mk_roa c mx asn) with (elt_of c (n, mx, asn)).
+        rewrite <- (I r). unfold installed. split; [intros [H|H]; [left; apply (elt_of_inj c); exact H|right; exact H]|intros [H|H]; [left; subst; reflexivity|right; exact H]].
+      * intro r. unfold v_recs. rewrite in_app_iff. rewrite <- (I r). unfold v_recs. cbn [In]. split.
+        -- intros [H|[H|[]]]; [right; exact H|left]. destruct r as [[n' mx'] asn']. cbn [fst snd] in H. unfold mk_roa in H. injection H as H1 H2 H3. subst. reflexivity.
+        -- intros [H|H]; [right; left; subst; reflexivity|left; exact H].
+    + rewrite VO in *. inversion H; subst; clear H. rewrite VO. rewrite orb_false_r. split; [|reflexivity].
+      intro r. unfold installed. rewrite remove_spec by exact W. change (n_fam n, key_of n, mk_roa c mx asn) with (elt_of c (n, mx, asn)).
+      rewrite <- (I r). unfold installed. split; [intros [H1 H2]; split; [intro; subst; apply H1; reflexivity|exact H2]|intros [H1 H2]; split; [intro E; apply H1; apply (elt_of_inj c); exact E|exact H2]].
+  - cbn [fold_step]. destruct (c_eod st) eqn:E; inversion H; subst; clear H; cbn [set_core c_eod c_v]; rewrite ?orb_true_r; (split; [|reflexivity]).
+    + exact I.
+    + intro r. rewrite installed_reset by exact W. apply I.
+  - inversion H; subst. cbn [fold_step]. rewrite orb_false_r. split; [exact I|reflexivity].
+  - inversion H; subst. cbn [fold_step]. rewrite orb_false_r. split; [exact I|reflexivity].
+Qed.
+
+Definition conforming_from (eod : bool) (ps : list pdu_view) : Prop := eod = true \/ conforming ps.
+
+Lemma fold_cache_ext : forall ps F G, (forall r, F r <-> G r) -> forall r, fold_cache ps F r <-> fold_cache ps G r.
+Proof.
+  induction ps as [|p ps IH]; intros F G H r; [apply H|]. destruct p as [x|x| |]; cbn [fold_cache]; apply IH; intro y; rewrite ?H; tauto.
+Qed.
+
+Lemma run_msgs_fold : forall ms c st t F,
+  wf_tab t -> v_ok c st -> fold_inv c st t F -> conforming_from (c_eod st) (map view ms) ->
+  let '(st', t') := run_msgs fixed c ms st t in
+  fold_inv c st' t' (fold_cache (map view ms) F) /\ wf_tab t' /\ v_ok c st'
+  /\ (c_eod st' = true <-> c_eod st = true \/ seen_eod (map view ms)).
+Proof.
+  induction ms as [|m ms IH]; intros c st t F W V I C.
+  - cbn. split; [exact I|]. split; [exact W|]. split; [exact V|]. unfold seen_eod. cbn. tauto.
+  - cbn [run_msgs map]. destruct (on_msg fixed c st t m) as [[st1 t1] out] eqn:E.
+    destruct (on_msg_inv fixed c st t m st1 t1 out W V E) as [W1 [V1 _]].
+    assert (VO : view_ok (c_eod st) (view m)).
+    { destruct C as [C|C]; [destruct (view m); cbn; auto|]. cbn [map conforming] in C. destruct (view m); cbn; auto; try contradiction. }
+    destruct (on_msg_fold c st t m st1 t1 out F W I VO E) as [I1 E1].
+    assert (C1 : conforming_from (c_eod st1) (map view ms)).
+    { rewrite E1. destruct C as [C|C]; [left; rewrite C; reflexivity|]. cbn [map conforming] in C.
+      destruct (view m); try (right; exact C); try contradiction. left. apply orb_true_r. }
+    specialize (IH c st1 t1 (fold_step (view m) F) W1 V1 I1 C1).
+    destruct (run_msgs fixed c ms st1 t1) as [st' t']. destruct IH as [I' [W' [V' S']]].
+    split; [rewrite fold_cache_step; exact I'|]. split; [exact W'|]. split; [exact V'|].
+    rewrite S', E1. unfold seen_eod. cbn [In]. rewrite orb_true_iff.
+    destruct (view m); split; intro H; try tauto; try (destruct H as [[H|H]|H]; try discriminate; tauto);
+      try (destruct H as [H|[H|H]]; try discriminate; tauto).
+Qed.
+
+(* C13, first sentence, at the level of decoded PDUs: for every PDU sequence of a
+   conforming cache, once an End of Data has been received (in particular right after
+   each End of Data) the VRPs installed for that cache are exactly the fold of its
+   responses, whatever the table held before *)
+Theorem C13_installed_eq_fold_at_eod : forall (c : N) (ms : list msg) (t0 : rtab),
+  wf_tab t0 -> conforming (map view ms) ->
+  let '(st, t) := run_msgs fixed c ms c_init t0 in
+  (c_eod st = true <-> seen_eod (map view ms))
+  /\ (c_eod st = true -> forall r, installed c t r <-> announced (map view ms) r).
+Proof.
+  intros c ms t0 W C.
+  pose proof (run_msgs_fold ms c c_init t0 (fun _ => False) W (v_ok_init c)) as H.
+  assert (I0 : fold_inv c c_init t0 (fun _ => False)) by (unfold fold_inv, v_recs; cbn; tauto).
+  specialize (H I0 (or_intror C)).
+  destruct (run_msgs fixed c ms c_init t0) as [st t]. destruct H as [I [_ [_ S]]].
+  split; [rewrite S; cbn; split; [intros [H|H]; [discriminate|exact H]|intro H; right; exact H]|].
+  intros E r. unfold fold_inv in I. rewrite E in I. apply I.
+Qed.
+
+(* other caches' VRPs are untouched by any PDU sequence, fixed or not *)
+Lemma run_msgs_iso : forall fx ms c st t, wf_tab t -> v_ok c st ->
+  let '(st', t') := run_msgs fx c ms st t in
+  wf_tab t' /\ v_ok c st' /\ forall x, cache_of x <> c -> (tmem t' x <-> tmem t x).
+Proof.
+  induction ms as [|m ms IH]; intros c st t W V; [cbn; split; [exact W|split; [exact V|tauto]]|].
+  cbn [run_msgs]. destruct (on_msg fx c st t m) as [[st1 t1] out] eqn:E.
+  destruct (on_msg_inv fx c st t m st1 t1 out W V E) as [W1 [V1 I1]].
+  specialize (IH c st1 t1 W1 V1). destruct (run_msgs fx c ms st1 t1) as [st' t']. destruct IH as [W' [V' I']].
+  split; [exact W'|split; [exact V'|]]. intros x Hx. rewrite I', I1 by exact Hx. reflexivity.
+Qed.
